@@ -88,6 +88,7 @@ def main():
     ap.add_argument("--tier", default="quick")
     ap.add_argument("--seeded", action="store_true", help="also run /verif/seeded/*/patch.diff")
     ap.add_argument("--checks", help="comma list of checks to run instead of the mutant's own property")
+    ap.add_argument("--update-meta", action="store_true", help="record the result under 'recheck' in seeded/<id>/meta.json")
     a = ap.parse_args()
     only = set(a.only.split(",")) if a.only else None
     todo = []
@@ -127,6 +128,12 @@ def main():
                 caught = rc == 1 and "VIOLATION property=" in out
                 first = next((l for l in out.splitlines() if l.startswith("witness")), "")[:300]
                 print(f"{m['id']:40s} {pid} {'CAUGHT' if caught else 'MISSED rc=%d' % rc} {wall:5.1f}s{suite} {first}", flush=True)
+                if a.update_meta and "patch" in m:
+                    mp = os.path.join(os.path.dirname(m["patch"]), "meta.json")
+                    mj = json.load(open(mp))
+                    head = subprocess.run(["git", "-C", ROOT, "log", "--format=%h", "-1"], capture_output=True, text=True).stdout.strip()
+                    mj.setdefault("recheck", {})[pid] = {"tier": a.tier, "caught": caught, "rc": rc, "wall_s": round(wall, 1), "witness": first, "verif_commit": head, "at": time.strftime("%Y-%m-%d %H:%M")}
+                    json.dump(mj, open(mp, "w"), indent=1)
                 if not caught:
                     ok = False
                     if rc not in (0, 1):
